@@ -93,7 +93,7 @@ static SymSpec gen_spec(bool thorough) {
   // The raw scheme (and, while finding E1 is open, the encoder's entropy estimate in every mode) allocates and scans
   // max_value+1 counters, so cost and memory grow with the magnitude, not the length: magnitudes are capped per tier
   // where that applies and the cap is reported. With E1 fixed, only the forced raw scheme is capped.
-  const int mem_cap_bits = thorough ? 27 : 22;
+  const int mem_cap_bits = thorough ? 24 : 22;
   uint64_t mv = (k >= 32 ? 0xffffffffull : (1ull << k)) + static_cast<uint64_t>(R(-1, 1));
   if (k > 0 && P(25)) mv = static_cast<uint64_t>(R64(0, static_cast<int64_t>(std::min<uint64_t>(mv, 0xffffffffull))));
   if (mv > 0xffffffffull) mv = 0xffffffffull;
